@@ -526,6 +526,7 @@ impl std::fmt::Debug for UdpSocket {
 pub struct RawSockIntent {
     pub local: Option<SocketAddr>,
     pub remote: Option<SocketAddr>,
+    pub reuse: bool,
 }
 
 static RAW_INTENTS: Mutex<Option<std::collections::HashMap<RawFd, RawSockIntent>>> = Mutex::new(None);
@@ -567,7 +568,7 @@ impl UdpSocket {
         let intent = raw_intent_take(fd);
         drop(socket);
         match intent {
-            Some(RawSockIntent { local: Some(local), remote }) => Ok(UdpSocket { st: udp::bind(local, true, remote)? }),
+            Some(RawSockIntent { local: Some(local), remote, reuse }) => Ok(UdpSocket { st: udp::bind_opt(local, true, remote, reuse)? }),
             _ => {
                 sim::with(|w| w.harness_error = Some("UdpSocket::from_std on a socket the simulation does not know".into()));
                 Err(io::Error::new(io::ErrorKind::Unsupported, "sim: unknown std socket"))
